@@ -69,7 +69,7 @@ def check_compact(prop, tier, seed):
             ccm.append(("concurrent model: 2 writers, every initial key state, one failing / lost deletion or dying compactor",
                         dict(CC_CONSTS, Writers={"c1", "c2"}, CompactRevs={0, 2, 4}, DelFaults={"err", "cas", "die"}, FaultBudget=1)))
             ccm.append(("concurrent model: 2 writers, conflicts carry no value (TiKV), stepwise compactor",
-                        dict(CC_CONSTS, Writers={"c1", "c2"}, CompactRevs={0, 2, 4}, ConflictCarriesValue=False)))
+                        dict(CC_CONSTS, Writers={"c1", "c2"}, CompactRevs={0, 2, 4}, ConflictCarriesValue=False, SnapAtTs=True)))
         for title, consts in ccm:
             r = run_mc(work, consts, CC_INV, name="mccc")
             cov["states"] += r["distinct"]
@@ -80,7 +80,7 @@ def check_compact(prop, tier, seed):
         nn = 2500 if quick else 30000
         ccdels = 0
         off_model = None
-        for engine, consts, num, shards in [("memkv", ccg, nn, 16), ("tikv", dict(ccg, ConflictCarriesValue=False), nn // 5, 8), ("badger", ccg, nn // 5, 4)]:
+        for engine, consts, num, shards in [("memkv", ccg, nn, 16), ("tikv", dict(ccg, ConflictCarriesValue=False, SnapAtTs=True), nn // 5, 8), ("badger", ccg, nn // 5, 4)]:
             behs, g = gen_behaviours(work, consts, "simulate", seed + 7, num=num, depth=80, limit=num, name="gencc")
             reports, traces = replay(work, binp, behs, engine, shards, name="replaycc_" + engine)
             rep = merge_reports(reports)
